@@ -670,6 +670,11 @@ fn template_view(k: i64, s: String) -> String {
             let (t, u) = (s.clone(), s.clone());
             view! { <svg><a href=s><text>{t}</text></a><desc>{u}</desc><g class="c"><text>"k"</text></g></svg> }.to_html()
         }
+        // MathML: <style> / <script> below <math> are foreign elements too (open finding F-C06-j)
+        23 => {
+            let t = s.clone();
+            view! { <math><style>{s}</style><mi>{t}</mi></math> }.to_html()
+        }
         // a fragment at the root of the view!
         19 => view! { "a<b" {s} <p>"x"</p> }.to_html(),
         _ => {
